@@ -140,6 +140,7 @@ func valWorker(args []string) int {
 
 // runValBatch: like runTotalBatch for the validation worker
 func runValBatch(c *core.Ctx, reqs []valReq, perCase time.Duration, sink func(int, *valRes)) {
+	deaths := 0
 	start := 0
 	for start < len(reqs) {
 		exe, _ := os.Executable()
@@ -211,6 +212,11 @@ func runValBatch(c *core.Ctx, reqs []valReq, perCase time.Duration, sink func(in
 		rq := reqs[done]
 		c.Violation(fmt.Sprintf("%s while %s: schema %q document %q: %s", what, rq.Kind, clip(rq.SDL, 300), clip(rq.Query, 600), firstLines(errTail.String(), 5)),
 			map[string]any{"request": rq, "what": what, "stderr": errTail.String()})
+		deaths++
+		if deaths >= 40 {
+			c.Logf("stopped after %d crashes / hangs of the child process (each is reported above)", deaths)
+			return
+		}
 		start = done + 1
 		for range lines {
 		}
